@@ -1,5 +1,8 @@
-"""SEEK-NET (C02): the net effect of BTreeItems_seek, by bounded symbolic
-execution of the whole function (helpers inlined, out-parameters followed).
+"""SEEK-NET (C02): the net effect of BTreeItems_seek, by a path-sensitive
+abstract interpretation of the whole function over its syntax tree (helpers
+inlined, out-parameters followed; values are polynomials, branch conditions
+become interval bounds on linear forms; loops are unrolled a bounded number of
+times; nothing is handed to a solver and nothing of BTrees is run).
 
 Where SEEK-ALGEBRA compares what one iteration of the two loops does, this rule
 is indifferent to where the bookkeeping is done (in the loops, in helpers, once
